@@ -793,8 +793,17 @@ class srange:
         if _isym(self.step):
             self.step = ctx().concretise(self.step.e, 'range step')
         self._sym = _isym(self.start) or _isym(self.stop)
+        self._n = None
         if not self._sym:
             self._r = range(self.start, self.stop, self.step)
+        elif self.step == 1:
+            # symbolic start and stop with a CONCRETE distance (range(g, g + n)): known length, no forking
+            diff = SInt.of(self.stop) - SInt.of(self.start)
+            de = z3.simplify(diff.e)
+            if z3.is_bv_value(de):
+                self._n = max(0, de.as_signed_long())
+            elif z3.is_int_value(de):
+                self._n = max(0, de.as_long())
 
     def __iter__(self):
         if not self._sym:
@@ -803,6 +812,10 @@ class srange:
 
     def _gen(self):
         i = self.start
+        if self._n is not None:
+            for k in range(self._n):
+                yield self.start + k
+            return
         if self.step > 0:
             while bool(i < self.stop):
                 yield i
@@ -815,11 +828,17 @@ class srange:
     def __len__(self):
         if not self._sym:
             return len(self._r)
+        if self._n is not None:
+            return self._n
         raise OutOfModel('len(range(symbolic))')
 
     def __getitem__(self, i):
         if not self._sym:
             return self._r[i]
+        if self._n is not None and isinstance(i, int):
+            if not -self._n <= i < self._n:
+                raise IndexError('range object index out of range')
+            return self.start + (i if i >= 0 else self._n + i)
         raise OutOfModel('range(symbolic)[i]')
 
     def __reversed__(self):
